@@ -408,8 +408,9 @@ fn parse_oracle<const B: Word>(c: &ParseCase, ctx: &Ctx) -> Out {
                 out.label("leading/trailing zeros count towards precision");
             }
         }
-        Want::Either(..) => {
+        Want::Either(_, why) => {
             out.label("reference: unspecified (Err or value)");
+            debug_assert!(!why.is_empty());
             out.nontrivial(true);
         }
         Want::Invalid { inner_plus, no_digits, .. } => {
@@ -1467,6 +1468,18 @@ fn precision_formula<const B: Word, const NB: Word>(c: &FormulaCase, ctx: &Ctx) 
     });
     let src: FBig<mode::Zero, B> = FBig::from_repr(Repr::one(), Context::new(c.p as usize));
     let unrelated = ilog_exact(nb, b) <= 1 && ilog_exact(b, nb) <= 1;
+    if c.p % 8 == 0 {
+        // "Infinities are mapped to infinities inexactly, the error will be NoOp"
+        out.label("infinity");
+        for neg in [false, true] {
+            let inf: FBig<mode::Zero, B> = if neg { FBig::NEG_INFINITY } else { FBig::INFINITY };
+            match catch(|| inf.with_base_and_precision::<NB>(c.p as usize)) {
+                Err(m) => out.fail(format!("with_base_and_precision::<{nb}> of an infinity (base {b}) panicked: {}", normalise_msg(&m))),
+                Ok(dashu_base::Approximation::Inexact(f, dashu_float::round::Rounding::NoOp)) if f.repr().is_infinite() && (f.repr().exponent() < 0) == neg => {}
+                Ok(other) => out.fail(format!("with_base_and_precision::<{nb}> of {}inf (base {b}) = {other:?}, documented: Inexact(same infinity, NoOp)", if neg { "-" } else { "+" })),
+            }
+        }
+    }
     match catch(|| src.with_base::<NB>()) {
         Err(m) => {
             if unrelated && doc == 0 && m.contains("precision cannot be 0") {
